@@ -37,6 +37,9 @@ CHECKS = {
     "C01": dict(cat="model_checking", tech="explicit-state BFS of implDFA x referenceDFA x unspecified-clause monitor, all paths",
                 text="For every built expression of the bounded program space whose documented meaning is specified, all reachable states of the product of the implementation's automaton, an independently compiled reference automaton of the documented semantics and the U1-U3 monitor are explored; any state where acceptance differs is a counterexample of unbounded length; every state is replayed through is_match.",
                 ref="DESIGN.md §3 C01, §2.4", note=MC_NOTE + " The reference is three-valued (U1-U5, DESIGN §2.4)."),
+    "C06": dict(cat="exploration", tech="bounded-exhaustive enumeration of the expression grammar vs a compositional three-valued reference rule checker",
+                text="Every expression of the documented syntax up to the size bound (all arrangements of branches nested to depth 3 at every position, every combination of sibling branches), the reduced alphabet at larger sizes, the corpus and the size family: Glob::new(e).is_ok() must equal the verdict of a reference that evaluates the documented rules over all expansions (not by neighbour inspection); every built glob must report has_root() != Sometimes.",
+                ref="DESIGN.md §3 C06, Appendix D", note="Trusted base: the reference rule checker is right where it is specified (three-valued: unspecified bands are excluded and counted); error kinds are not compared."),
     "C07": dict(cat="model_checking", tech="explicit-state BFS of the product of the implementation's own DFAs of related expressions",
                 text="Algebraic laws between compiled programs, no reference semantics: for every branch site of every built expression the substitution / unrolling family, wrappings of the whole and of sub-sequences, and any() over four construction routes; all reachable tuples of the product of the members' automata.",
                 ref="DESIGN.md §3 C07", note=MC_NOTE),
